@@ -645,6 +645,9 @@ def main(tier):
     if not quick:
         from . import memcheck_layer
         memcheck_layer.run(col, PROP, ('meta',), time.time() + 300)
+        ut = miri_layer.unit_tests(col, PROP, ('logs::tests',), time.time() + 400)
+        if isinstance(extra, dict):
+            extra['miri_unit_tests'] = ut
     rc = col.finish(extra_coverage=extra)
     common.cleanup_scratch()
     return rc
